@@ -89,7 +89,7 @@ func ParseTags(raw string) (t Tags) {
 		// 	continue
 		// }
 
-		t[parts[i][:hasValue]] = tagDecoder.Replace(parts[i][hasValue+1:])
+		t[parts[i][:hasValue]] = parts[i][hasValue+1:]
 	}
 
 	return t
